@@ -549,6 +549,10 @@ def kstep (s : St) (op : List String) (impl : String) : St × String :=
     match natList? [n, w, h] with
     | some [n, w, h] => ({ s with imgs := s.imgs ++ [(n, { wPix := w, hPix := h })] }, s!"ok\t{impl}\t-")
     | _ => (s, bad)
+  | ["kimgs", n, w, h] =>   -- the same image as a crop of a larger one (F420): nothing changes
+    match natList? [n, w, h] with
+    | some [n, w, h] => ({ s with imgs := s.imgs ++ [(n, { wPix := w, hPix := h })] }, s!"ok\t{impl}\t-")
+    | _ => (s, bad)
   | ["simg", n, w, h] =>
     match natList? [n, w, h] with
     | some [n, w, h] => ({ s with imgs := s.imgs ++ [(n, { wPix := w, hPix := h, sixel := true })] }, s!"ok\t{impl}\t-")
